@@ -85,7 +85,7 @@ def profile(prop, g):
         kw.update(p_doc=0.85, layout=g.choice([1, 2, 2]), max_items=5)
     elif prop == 'C02':
         kw.update(max_depth=4, layout=g.choice([1, 2, 2]), malformed=g.choice([0, 0, 0, 0.15]), p_docimpl=g.choice([0, 0, 0.4]),
-                  weights={'dangling': 1.5, 'generic': 2.0, 'blk': 1.5})
+                  p_dup=g.choice([0, 0.35]), weights={'dangling': 1.5, 'generic': 2.0, 'blk': 1.5})
     elif prop == 'C03':
         kw.update(max_depth=4, p_docimpl=g.choice([0, 0, 0.4]), weights={'func': 3, 'macro': 3, 'cpa': 4, 'blk': 2, 'member': 2, 'cttest': 1.5, 'class': 1.5,
                                         'set': 0.3, 'option': 0.3, 'add_test': 0.3, 'generic': 0.5, 'dangling': 0.3})
@@ -183,6 +183,10 @@ def run_cases(prop, cases, out, drv, sb, label):
             guard = cfg.get('incl', {}).get('cpp_class', True) or not h['documented_class']
             out.dist['hyp:Module.valid' if h['valid'] else 'hyp:not-valid'] += 1
             out.dist['hyp:itemsWf' if h['wf'] else 'hyp:not-wf'] += 1
+            if 'wf_seq' in h:
+                if GM.well_formed(m, documented_impl=True)[0] != h['wf_seq']: out.dist['hyp:python-WF(documented_impl) differs from Lean itemsWfS'] += 1
+                out.dist['hyp:itemsWfS' if h['wf_seq'] else 'hyp:not-wfS'] += 1
+                if h['valid'] and h['wf_seq'] and not h['wf'] and guard: out.dist['hyp:inside-T_aggS-only (split declaration / documented implementation)'] += 1
             if h['valid'] and h['wf'] and guard: out.dist['hyp:inside-T_pipeline-domain'] += 1
     for (key, m, cfg), r, model in zip(cases, rend, models):
         real = impl.real_pipeline(sb, r['src'], impl.make_settings(cfg, headers=['#']), 'T', 'M')
